@@ -190,6 +190,10 @@ func (t *Target) serve(c *Conn, step *ProbeStep) {
 		}
 		var body []byte
 		var bodyErr error
+		if strings.EqualFold(req.Header.Get("Expect"), "100-continue") {
+			// what a real server does when its handler starts reading such a body
+			c.Write([]byte("HTTP/1.1 100 Continue\r\n\r\n"))
+		}
 		if req.Header.Get("Upgrade") == "" {
 			body, bodyErr = io.ReadAll(req.Body)
 		}
